@@ -189,7 +189,11 @@ func (s *shardNodeReader) Seek(offset int64, whence int) (int64, error) {
 	case io.SeekCurrent:
 		target += offset
 	case io.SeekEnd:
-		target = s.length() + offset
+		length, err := s.length()
+		if err != nil {
+			return s.offset, err
+		}
+		target = length + offset
 	}
 	if target < 0 {
 		// leave the reader where it was, as io.Seeker asks
@@ -202,7 +206,7 @@ func (s *shardNodeReader) Seek(offset int64, whence int) (int64, error) {
 	return s.offset, nil
 }
 
-func (s *shardNodeFile) length() int64 {
+func (s *shardNodeFile) length() (int64, error) {
 	// see if we have size specified in the unixfs data. errors fall back to length from links
 	nodeData, err := s.unpack()
 	if err != nil || nodeData == nil {
@@ -210,32 +214,32 @@ func (s *shardNodeFile) length() int64 {
 	}
 	if nodeData.FileSize.Exists() {
 		if fs, err := nodeData.FileSize.Must().AsInt(); err == nil {
-			return int64(fs)
+			return int64(fs), nil
 		}
 	}
 
 	return s.lengthFromLinks()
 }
 
-func (s *shardNodeFile) lengthFromLinks() int64 {
+func (s *shardNodeFile) lengthFromLinks() (int64, error) {
 	links, err := s.substrate.LookupByString("Links")
 	if err != nil {
-		return 0
+		return 0, err
 	}
 	size := int64(0)
 	li := links.ListIterator()
 	for !li.Done() {
 		idx, l, err := li.Next()
 		if err != nil {
-			return 0
+			return 0, err
 		}
 		ll, _, err := s.linkSize(l, int(idx))
 		if err != nil {
-			return 0
+			return 0, err
 		}
 		size += ll
 	}
-	return size
+	return size, nil
 }
 
 func (s *shardNodeFile) AsLargeBytes() (io.ReadSeeker, error) {
